@@ -807,6 +807,175 @@ def ref_apply(p: dict, pl: dict, b: dict) -> dict:
 
 
 # ---------------------------------------------------------------------------------------------
+# reference DRIVER: greedy application as PatternRewriteWalker does it (worklist, use lists), written from
+# pattern_rewriter.py / utils/worklist.py / ir/core.py on top of the reference matcher (mirrored by the Lean
+# model `driveW` of XdslModel/PDL.lean)
+# ---------------------------------------------------------------------------------------------
+
+class DriveFuel(Exception):
+    pass
+
+
+def ref_drive(p: dict, pl: dict, reverse: bool = False, fuel: int = 400, trace: list | None = None) -> dict:
+    """the payload after `PatternRewriteWalker(pattern, walk_reverse=reverse).rewrite_module` according to the
+    specification: ops are visited in worklist order (a LIFO stack without duplicates, populated with every op so
+    that the first — `reverse`: the last — op is on top; created ops, users of replaced results, modified ops and the
+    single-use producers of an erased op's operands are pushed; erased ops are removed), the use lists are kept
+    newest-first like IRWithUses; the walk is repeated until one whole walk changes nothing.
+    Raises RefError where a rewrite is ill-formed (the real driver aborts there), DriveFuel after `fuel` visits."""
+    ops = [{**o, "operands": [list(r) for r in o["operands"]], "id": i} for i, o in enumerate(pl["ops"])]
+    next_id = [len(ops)]
+    uses: dict[tuple, list[tuple[int, int]]] = {}
+    wl: list[int] = []                     # top of the stack = wl[0]
+
+    def key(v) -> tuple:
+        return tuple(v)
+
+    def add_use(v, u) -> None:
+        uses.setdefault(key(v), []).insert(0, u)
+
+    def remove_use(v, u) -> None:
+        uses[key(v)].remove(u)
+
+    for o in ops:
+        for k, v in enumerate(o["operands"]):
+            add_use(v, (o["id"], k))
+
+    def push(i: int) -> None:
+        if i not in wl:
+            wl.insert(0, i)
+
+    def find(i: int) -> dict | None:
+        return next((o for o in ops if o["id"] == i), None)
+
+    def as_payload() -> tuple[dict, dict[int, int]]:
+        pos = {o["id"]: k for k, o in enumerate(ops)}
+        return ({"args": list(pl["args"]),
+                 "ops": [{"name": o["name"], "operands": [r if r[0] == "a" else ["r", pos[r[1]], r[2]] for r in o["operands"]],
+                          "attrs": sorted(o.get("attrs", [])), "props": sorted(o.get("props", [])),
+                          "results": list(o["results"])} for o in ops]}, pos)
+
+    def erase(x: dict) -> None:
+        for v in x["operands"]:                                   # _add_operands_to_worklist
+            if v[0] == "r" and len(uses.get(key(v), [])) == 1:
+                push(v[1])
+        if x["id"] in wl:
+            wl.remove(x["id"])
+        for k, v in enumerate(x["operands"]):                     # drop_all_references
+            remove_use(v, (x["id"], k))
+        for k in range(len(x["results"])):
+            if uses.get(("r", x["id"], k)):
+                raise RefError("erased op still has uses")
+        ops.remove(x)
+
+    def replace(x: dict, vs: list) -> None:
+        if len(vs) != len(x["results"]):
+            raise RefError("number of replacement values")
+        for k in range(len(x["results"])):                        # _handle_operation_replacement
+            for (u, _) in list(uses.get(("r", x["id"], k), [])):
+                push(u)
+        for k, nv in enumerate(vs):                               # replace_all_uses_with, result by result
+            old = ["r", x["id"], k]
+            if list(nv) == old:
+                continue
+            snapshot = list(uses.get(key(old), []))
+            for (u, idx) in snapshot:
+                remove_use(old, (u, idx))
+                find(u)["operands"][idx] = list(nv)
+                add_use(nv, (u, idx))
+            for (u, _) in snapshot:                               # _handle_operation_modification
+                push(u)
+        erase(x)
+
+    def visit(root_id: int) -> bool:
+        cur, pos = as_payload()
+        b, _ = ref_match_why(p, cur, pos[root_id])
+        if b is None:
+            return False
+        inv = {k: i for i, k in pos.items()}
+        bops = {i: inv[k] for i, k in b["ops"].items()}
+        bvals = {i: (v if v[0] == "a" else ["r", inv[v[1]], v[2]]) for i, v in b["vals"].items()}
+        created: list[int] = []
+
+        def val(ref) -> list:
+            if ref[0] == "v":
+                if ref[1] not in bvals:
+                    raise RefError("unbound value")
+                v = bvals[ref[1]]
+            elif ref[0] == "mr":
+                v = ["r", bops[ref[1]], ref[2]]
+            else:
+                v = ["r", created[ref[1]], ref[2]]
+            if v[0] == "r":
+                o = find(v[1])
+                if o is None or v[2] >= len(o["results"]):
+                    raise RefError("value not available")
+            return list(v)
+
+        def opref(ref) -> dict:
+            o = find(bops[ref[1]] if ref[0] == "m" else created[ref[1]])
+            if o is None:
+                raise RefError("op not available")
+            return o
+
+        for act in p["rw"]:
+            if act[0] == "op":
+                attrs, props = [], []
+                for n, ar in act[3]:
+                    if ar[0] == "c":
+                        if ar[1] not in b["attrs"]:
+                            raise RefError("unbound attribute")
+                        t = b["attrs"][ar[1]]
+                    else:
+                        t = norm_attr_text(ar[1])
+                    (props if n in ("prop1", "prop2", "prop3") else attrs).append([n, t])
+                tys = []
+                for tr in act[4]:
+                    if tr[0] == "c":
+                        if tr[1] not in b["types"]:
+                            raise RefError("unbound type")
+                        tys.append(b["types"][tr[1]])
+                    else:
+                        tys.append(norm_attr_text(tr[1]))
+                new = {"name": canon_opname(act[1]), "operands": [val(r) for r in act[2]], "attrs": attrs, "props": props,
+                       "results": tys, "id": next_id[0]}
+                next_id[0] += 1
+                created.append(new["id"])
+                at = next((k for k, o in enumerate(ops) if o["id"] == root_id), None)
+                if at is None:
+                    raise RefError("root erased before insertion")
+                ops.insert(at, new)
+                for k, v in enumerate(new["operands"]):
+                    add_use(v, (new["id"], k))
+                push(new["id"])                                   # _handle_operation_insertion
+            elif act[0] == "replace_vals":
+                x = opref(act[1])
+                replace(x, [val(r) for r in act[2]])
+            elif act[0] == "replace_op":
+                x, y = opref(act[1]), opref(act[2])
+                replace(x, [["r", y["id"], k] for k in range(len(y["results"]))])
+            elif act[0] == "erase":
+                erase(opref(act[1]))
+        return bool(p["rw"])
+
+    visits = 0
+    while True:
+        for o in (ops if reverse else reversed(ops)):             # _populate_worklist
+            push(o["id"])
+        changed = False
+        while wl:
+            i = wl.pop(0)
+            visits += 1
+            if visits > fuel:
+                raise DriveFuel()
+            if trace is not None:
+                trace.append(as_payload()[1][i])
+            changed |= visit(i)
+        if not changed:
+            return as_payload()[0]
+
+
+# ---------------------------------------------------------------------------------------------
 # encoding for the Lean model `pdl` (XdslModel/PDL.lean): everything is a sequence of naturals
 # ---------------------------------------------------------------------------------------------
 
